@@ -38,6 +38,10 @@ def gen(ctx):
         inf = IO.analyse(s)
         for p in (["mixed", "special"] if ctx.quick else ["mixed", "special", "random"]):
             files.append((si, IO.fmt_dat(IO.gen_dat(inf, rnd, p, maxcells=24 if ctx.quick else 40))))
+    # one file whose array payload exceeds a megabyte (odd cell width): only its checked words are altered
+    for si, s in enumerate(stacks):
+        if s == [["array", "f32", 3]]:
+            files.append((si, IO.fmt_dat(IO.gen_dat(IO.analyse(s), rnd, "mixed", maxcells=400000, ext_pool=[90001]))))
     return stacks, files, rnd.getrandbits(32)
 
 
@@ -124,14 +128,18 @@ def evaluate(ctx, stacks, files, aseed, cfgs, pairs="all", only=None, corpus=Non
         same = [k for k in good if hexes[k] == mdump[k]]
         if len(same) < len(files):
             corr.notes.append(f"{len(files) - len(same)} of {len(files)} dumps differ from the model's bytes ({cfg}); word alterations skipped for those (C06/C07 report the format change)")
+        # files of a megabyte and more take part in the word alterations only (every prefix of them would be a million loads)
+        big = {k for k in range(len(files)) if len(files[k][1]) > 200000}
+        goodS = [k for k in good if k not in big]
+        sameS = [k for k in same if k not in big]
         want = (lambda kind: only is None or only["kind"] == kind)
         # the model's verdict on every prefix of every file (also used for the n-th-read faults: a stream that stopped after
         # `end` bytes is the prefix of length `end`)
-        pmodel = dict(zip(same, IO.run_model([f"prefixes {infos[files[k][0]].tytok} | {hexes[k]}" for k in same], timeout_per_line=2)))
+        pmodel = dict(zip(sameS, IO.run_model([f"prefixes {infos[files[k][0]].tytok} | {hexes[k]}" for k in sameS], timeout_per_line=2)))
         sameset = set(same)
         # ---------------------------------------------------------------- (a) every proper prefix (stream ends after k bytes)
         if want("prefix") or want("complete"):
-            ks = good
+            ks = goodS
             po = impl.run(cfg, [(files[k][0], "prefixes {s} " + hexes[k]) for k in ks], timeout_per_line=5)
             pm = [pmodel.get(k) for k in ks]
             for k, o, m in zip(ks, po, pm):
@@ -239,7 +247,7 @@ def evaluate(ctx, stacks, files, aseed, cfgs, pairs="all", only=None, corpus=Non
         if want("nth"):
             modes = ("short", "half", "throw") if only is None else (only["fault"][0],)
             for mode in modes:
-                ks = good
+                ks = goodS
                 no = impl.run(cfg, [(files[k][0], f"nthall {{s}} {mode} " + hexes[k]) for k in ks], timeout_per_line=5)
                 need = []
                 parsed = []
@@ -292,7 +300,7 @@ def evaluate(ctx, stacks, files, aseed, cfgs, pairs="all", only=None, corpus=Non
         # ---------------------------------------------------------------- valgrind memcheck on a sample (rel build, no ASan)
         if valgrind and cfg == "rel" and only is None:
             vrnd = random.Random(aseed + 2)
-            sample = vrnd.sample(same, max(1, len(same) // 10)) if same else []
+            sample = vrnd.sample(sameS, max(1, len(sameS) // 10)) if sameS else []
             arnd = random.Random(aseed)
             ops = []
             for k in sample:
